@@ -528,6 +528,22 @@ class World:
                 res.kinematics = s.F
 
 
+def expected_prescribed_from(world, boundaries):
+    """As expected_prescribed, for an explicit boundary dictionary."""
+
+    class _S:
+        pass
+
+    s = _S()
+    s.boundaries = boundaries
+    saved = world.steps
+    world.steps = [s]
+    try:
+        return expected_prescribed(world, 0)
+    finally:
+        world.steps = saved
+
+
 def expected_prescribed(world, step_index):
     """Independent model of the prescribed values: {global unknown: value} from the public
     attributes of the step's Boundary objects (dof, value, field) and the container layout
